@@ -15,13 +15,13 @@ from pbt.codec import T, key, tkey
 from pbt.core import HarnessStepLimit, K, Out, Sub, counting_graph_class, is_err, sut
 from pbt.gen.util import sized_lists
 
-RULE = ("histories: op lists (append, +=, c[i]=v, del c[i], clear, len, iter, c[i], index, in, n3) over a pool of 8 members "
+RULE = ("histories: op lists (append, +=, c += c, += of an iterable that raises part-way, c[i]=v, del c[i], clear, len, iter, c[i], index, in, n3) over a pool of 8 members "
         "incl. Literal(0)/Literal('')/Literal(False) and duplicates, start length 0-4, head bnode or IRI, indexes 0..len+1; "
         "broken: chains with cyclic/duplicate/missing rdf:rest or missing rdf:first. Non-trivial = history has a delete at "
         "index 0 or len-1, an operation on a falsy member, or an out-of-range index (broken: any structural defect); "
         "distinct by SHA-1 of the case JSON.")
 ASSUMPTIONS = ["negative indexes are not generated (not documented for Collection)",
-               "index() of an absent member must raise; ValueError only required on well-formed non-empty lists",
+               "index() of an absent member raises ValueError on every well-formed list, the empty one included",
                "non-termination is detected by a bound on Graph.triples() calls, not wall clock"]
 
 MEMBERS = [["l", "0", None, "http://www.w3.org/2001/XMLSchema#integer"], ["l", "", None, None],
@@ -89,7 +89,7 @@ def run_ops(case):
         exp_exc = None
         exp = None
         got = None
-        mutating = name in ("append", "iadd", "set", "del", "clear")
+        mutating = name in ("append", "iadd", "iadd-self", "iadd-raising", "set", "del", "clear")
         try:
             if name == "append":
                 m = M(op[1]); nt |= (op[1] % len(MEMBERS)) in FALSY
@@ -101,6 +101,23 @@ def run_ops(case):
                 model += ms
                 got = sut(c.__iadd__, list(ms))
                 exp = "self"
+            elif name == "iadd-self":
+                # c += c: a list doubles itself
+                nt = True
+                model += list(model)
+                got = sut(c.__iadd__, c)
+                exp = "self"
+            elif name == "iadd-raising":
+                # an iterable that fails part-way: a list keeps what it got before that and stays a list
+                ms = [M(i) for i in op[1]]
+                nt = True
+
+                def failing():
+                    yield from ms
+                    raise _Boom()
+                model += ms
+                got = sut(c.__iadd__, failing())
+                exp_exc = _Boom
             elif name == "set":
                 i, m = op[1], M(op[2])
                 if K.skip("C19-setitem-at-len", i == len(model), out):
@@ -144,7 +161,7 @@ def run_ops(case):
                 if m in model:
                     exp = model.index(m)
                 else:
-                    exp_exc = ValueError if len(model) > 0 else Exception
+                    exp_exc = ValueError
                 got = sut(c.index, m)
             elif name == "in":
                 m = M(op[1]); nt |= (op[1] % len(MEMBERS)) in FALSY
@@ -254,6 +271,10 @@ def run_broken(case):
     return out
 
 
+class _Boom(Exception):
+    pass
+
+
 def ops_strategy(tier):
     big = tier == "thorough"
     mi = st.integers(0, len(MEMBERS) - 1)
@@ -261,7 +282,7 @@ def ops_strategy(tier):
     op = st.one_of(
         st.tuples(st.just("append"), mi), st.tuples(st.just("iadd"), st.lists(mi, max_size=3)),
         st.tuples(st.just("set"), idx, mi), st.tuples(st.just("del"), idx), st.tuples(st.just("del"), st.integers(0, 1)),
-        st.tuples(st.just("clear")),
+        st.tuples(st.just("clear")), st.tuples(st.just("iadd-self")), st.tuples(st.just("iadd-raising"), st.lists(mi, max_size=2)),
         st.tuples(st.just("len")), st.tuples(st.just("iter")), st.tuples(st.just("get"), idx), st.tuples(st.just("index"), mi),
         st.tuples(st.just("in"), mi), st.tuples(st.just("n3")),
     ).map(list)
